@@ -3,6 +3,7 @@ import Setec.Driver.CryptoDrv
 import Setec.Driver.FsDrv
 import Setec.Driver.HttpDrv
 import Setec.Driver.CliDrv
+import Setec.Driver.StoreDrv
 import Setec.Generated.Facts
 open Setec.Driver
 
@@ -50,6 +51,11 @@ def main (args : List String) : IO UInt32 := do
     let st ← loop stdin cliLine {} 1
     printCover st.cover
     IO.println s!"SUMMARY family=cli steps={st.cases} clause_evals={st.cases} propfail={st.fails} diverge={st.diverges}"
+    return 0
+  | ["store"] =>
+    let st ← loop stdin storeLine {} 1
+    printCover st.cover
+    IO.println s!"SUMMARY family=store steps={st.steps} clause_evals={st.steps * 6} propfail={st.fails} diverge={st.diverges}"
     return 0
   | ["fs"] =>
     let st ← loop stdin fsLine {} 1
